@@ -1411,7 +1411,12 @@ class FileStorage(
                 dest = os.path.dirname(old + file_path[lblob_dir:])
                 if not os.path.exists(dest):
                     os.makedirs(dest)
-                link_or_copy(file_path, old + file_path[lblob_dir:])
+                try:
+                    link_or_copy(file_path, old + file_path[lblob_dir:])
+                except FileNotFoundError:
+                    # Nobody is locked out here: it was the file of a
+                    # transaction that has been aborted meanwhile.
+                    pass
 
     def iterator(self, start=None, stop=None):
         return FileIterator(self._file_name, start, stop)
